@@ -405,6 +405,13 @@ func scanValues(u *Universe) []V {
 		}
 		return append(vals, AStr(""), AStr("\xff"), AStr("\xff\xff"), ABool(true))
 	}
+	if u.TimeTable == "far1970" {
+		vals := []V{ANil(), ANum(8, "i"), AStr("a"), ABool(true)}
+		for ord := range u.times {
+			vals = append(vals, ATime(ord, ord%genZones))
+		}
+		return vals
+	}
 	return []V{ANil(), ANum(6, "i"), ANum(8, "i"), ANum(8, "f"), ANum(9, "f"), ANum(10, "i"), ANum(11, "u"), AStr(""), AStr("a"), AStr("a\x00"), AStr("ab"),
 		AStr("a\xff\x01b"), AStr("a\x00\x01"), AStr("\xff\x01"),
 		ABool(false), ABool(true), ATime(0, 0), ATime(3, 1), AArr(), AArr(ANum(8, "i")), AObj(), AObj("a", ANum(8, "i"))}
@@ -424,6 +431,9 @@ func auxScan(r *rand.Rand, n int, emit func(E), stats map[string]int) {
 		u := NewUniverse("general", "general")
 		if it%2 == 1 {
 			u = NewUniverse("floats", "general")
+		}
+		if it%4 == 2 {
+			u = NewUniverse("general", "far1970") // instants around and beyond what 64 bits of nanoseconds hold
 		}
 		vals := scanValues(u)
 		bounds := []V{V{"nobound"}} // a nil bound *is* the open end (or, when included, the value nil)
